@@ -13,6 +13,10 @@ class Boom(Exception):
     pass
 
 
+class Cancel(BaseException):
+    """like KeyboardInterrupt / SystemExit / CancelledError: a BaseException that is not an Exception"""
+
+
 class Bad:
     pass
 
@@ -90,6 +94,8 @@ class Run:
                     want.extend(ea)
                 if self.exc[i] == 1:
                     raise Boom()
+                if self.exc[i] == 3:
+                    raise Cancel()
                 if level < self.depth:
                     try:
                         self.block(level + 1)
@@ -146,7 +152,7 @@ def _pre(B, depth, ka1, kb1, e1, ka2, kb2, e2, ka3, kb3, e3, reenter):
         if k not in (2, 6):
             return False
     for e in (e1, e2, e3):
-        if not (0 <= e <= 2):
+        if not (0 <= e <= 3):
             return False
     if depth < 2 and not (ka2 == 0 and kb2 == 2 and e2 == 0):
         return False
@@ -159,10 +165,10 @@ def _pre(B, depth, ka1, kb1, e1, ka2, kb2, e2, ka3, kb3, e3, reenter):
 
 @harness("C17", pre=_pre,
          bounds={"quick": {"D": 2, "D3_SMALL": True}, "thorough": {"D": 3, "D3_SMALL": True}},
-         shard=lambda B: [{"depth": d, "ka1": k, "e1": e} for d in range(1, B["D"] + 1) for k in range(N_KIND) for e in range(3)
+         shard=lambda B: [{"depth": d, "ka1": k, "e1": e} for d in range(1, B["D"] + 1) for k in range(N_KIND) for e in range(4)
                           if not (d == 3 and k not in (2, 4))],
          sel=["depth: nesting of with-blocks", "ka*, kb*: displayed value kinds per level (None, Ellipsis, str, number, _repr_html_ object, tag, invalid)",
-              "e*: exception raised before / after the inner block", "reenter: level at which the active tag is re-entered"],
+              "e*: exception raised before / after the inner block, or a BaseException that is not an Exception", "reenter: level at which the active tag is re-entered"],
          targets=["htmltools._core.Tag.__enter__", "htmltools._core.Tag.__exit__", "htmltools._core.wrap_displayhook_handler"],
          stubs=["sys.displayhook is replaced by a recording stub for the duration of a path and restored afterwards"],
          timeout={"quick": 200, "thorough": 1500})
@@ -175,7 +181,7 @@ def h_with_blocks(depth: int, ka1: int, kb1: int, e1: int, ka2: int, kb2: int, e
         raised = None
         try:
             r.block(1)
-        except (Boom, TypeError) as e:
+        except (Boom, TypeError, Cancel) as e:
             raised = e
         if sys.displayhook != r.h0:
             return False
@@ -184,7 +190,7 @@ def h_with_blocks(depth: int, ka1: int, kb1: int, e1: int, ka2: int, kb2: int, e
         exp_raise = False
         for lvl in range(depth, 0, -1):
             i = lvl - 1
-            if r.exc[i] == 1:          # raised before the inner block ran
+            if r.exc[i] == 1 or r.exc[i] == 3:          # raised before the inner block ran
                 exp_raise = True
             elif exp_raise:            # propagating out of the inner block
                 exp_raise = True
